@@ -19,7 +19,13 @@ RULE = ("one case = a deterministic, functional program recorded through a real 
         "PLACE after the capture, with copy-on-interception on, and whose later outputs and result depend on it - every "
         "container shape (tuple of list/dict/object/set, tuple in tuple, list, dict, object, nested mixes) x instance/static "
         "input x no / pass-through / wrapping data handler x the three cassettes, two inputs changed alternately, and a "
-        "never-sampled class (rate 0) whose operation enforces sampling after the capture; non-trivial = at "
+        "never-sampled class (rate 0) whose operation enforces sampling after the capture; a fallback-priority stream that "
+        "always runs (a renamed input that keeps its old alias as fallback while the old input is still called with equal "
+        "arguments: main and fallback key both recorded, old input before/after, fallback key sorting before/after the main "
+        "key, list/function fallbacks, three cassettes); cross-process cases (kind xproc: recorded by one interpreter into a "
+        "file-based cassette, each replay by another interpreter with its own PYTHONHASHSEED; inputs with two or three "
+        "captured arguments given by position AND name called with the same values in different positions, plus programs of "
+        "the main stream); output data handlers preparing an int / None; non-trivial = at "
         "least two interceptions; distinct = distinct (program, cassette)")
 ASSUMPTIONS = ["worker threads are modelled at start/join granularity (Spawn: a thread started and joined by the operation's own code); "
                "true concurrency is not (the per-alias output counter is a non-atomic read-modify-write, runtime behaviour no "
@@ -570,7 +576,9 @@ MANIFEST = dict(
          "playback and recorded outputs compared with the model. Direct predicate: play() returns, every outermost "
          "intercepted call gets its recorded outcome in order, no body runs, playback_outputs == recorded_outputs; the same predicate "
          "on hand-written operations that mutate their inputs in place after capture with copy-on-interception on (all container "
-         "shapes, three cassettes; implementation only).",
+         "shapes, three cassettes; implementation only). Round 6: the history may be spread over several interpreter processes "
+         "(recording process and every replaying process with a different PYTHONHASHSEED, file-based cassette in between) - model "
+         "and direct predicate apply unchanged; main alias and a recorded fallback alias both present in one recording.",
     note="Partial: worker threads inside an operation are not modelled (single-threaded theorem). Hypotheses: no "
          "enable/disable/play_data statements, restore(prepare v) = v, functional trace, canonical stored values (tree "
          "domain; sharing is known finding F07c). Trusted: Coq kernel + vm_compute, hand-written model, correspondence "
